@@ -483,6 +483,24 @@ func TestLinPileup(t *testing.T) {
 		two := keysByBucket(fmt.Sprintf("p%d", hi), bucket, bucket, 2)
 		key, blocker := two[0], two[1]
 
+		// VERIF_PILE_COLLIDE: two keys with the same xxhash64 sum (one slot of one shard of the sharded maps); the pile-up
+		// mixes operations on both, a write of one key evicts the other and nothing else may cross over
+		collide := os.Getenv("VERIF_PILE_COLLIDE") != ""
+		key2 := []byte(nil)
+
+		if collide {
+			kind = []string{"ShardedMap", "ShardedMapOf"}[hi%2]
+
+			a, b, ok := CollidingPair(rng)
+			if !ok {
+				continue
+			}
+
+			key, key2 = a, b
+			bucket = xxhash.Sum64(a) % 128
+			blocker = keysByBucket(fmt.Sprintf("pc%d", hi), bucket, bucket, 1)[0]
+		}
+
 		stat := NewStatRec()
 		entered := make(chan struct{})
 		release := make(chan struct{})
@@ -507,6 +525,11 @@ func TestLinPileup(t *testing.T) {
 
 		one := func(g int, what string) {
 			op := linOp{ID: int(atomic.AddInt64(&idc, 1)), G: g, Op: what, K: "k1"}
+			key := key
+
+			if len(what) > 1 && what[len(what)-1] == '2' { // "Write2": the colliding key
+				what, op.Op, op.K, key = what[:len(what)-1], what[:len(what)-1], "k2", key2
+			}
 
 			switch what {
 			case "Write":
@@ -551,6 +574,9 @@ func TestLinPileup(t *testing.T) {
 			wg.Add(1)
 
 			what := []string{"Delete", "Delete", "Delete", "Read", "Write"}[rng.Intn(5)]
+			if collide {
+				what = []string{"Delete", "Delete", "Write2", "Write2", "Read2", "Read", "Write", "Delete2"}[rng.Intn(8)]
+			}
 
 			go func(g int, what string) {
 				defer wg.Done()
@@ -566,6 +592,18 @@ func TestLinPileup(t *testing.T) {
 		wg.Wait()
 
 		one(0, "Read")
+
+		if collide {
+			one(0, "Read2")
+			sort.Slice(ops, func(i, j int) bool { return ops[i].Call < ops[j].Call })
+
+			_ = enc.Encode(map[string]interface{}{"h": 300000 + hi, "kind": kind, "collide": true, "goroutines": G, "ops": ops,
+				"keys": []string{"k1", "k2"}, "evict": false})
+			res.Evaluations++
+			res.Steps += len(ops)
+
+			continue
+		}
 
 		md := linOp{ID: int(atomic.AddInt64(&idc, 1)), Op: "MetricDelete", K: "k1", N: stat.Total(cache.MetricDelete, "lin")}
 		md.Call = atomic.AddInt64(&stamp, 1)
